@@ -163,7 +163,8 @@ def model_check(name, case, rec):
 # mixed wrappers
 # ---------------------------------------------------------------------------------------------------------------
 MIXED = ["ThreeFieldVariation(NeoHooke)", "NearlyIncompressible(NeoHooke)", "NearlyIncompressible(NeoHooke, U=K/4(J^2-1-2lnJ))", "ThreeFieldVariation(tt:yeoh)", "NearlyIncompressible(tt:mooney_rivlin)",
-         "ThreeFieldVariation(OgdenRoxburgh)", "NearlyIncompressible(jax:yeoh)"]
+         "ThreeFieldVariation(OgdenRoxburgh)", "NearlyIncompressible(jax:yeoh)", "ThreeFieldVariation(user:nonsymmetric-tangent)",
+         "NearlyIncompressible(user:nonsymmetric-tangent)"]
 
 
 def mixed_strategy(name, tier):
@@ -188,6 +189,22 @@ def mixed_build(name, c):
         # user-supplied (non-quadratic) volumetric law: U' = K/2 (J - 1/J), U'' = K/2 (1 + 1/J^2)
         return fem.NearlyIncompressible(fem.NeoHooke(mu=c["mu"]), bulk=c["bulk"], dUdJ=lambda J, bulk: bulk / 2 * (J - 1 / J),
                                         d2UdJdJ=lambda J, bulk: bulk / 2 * (1 + 1 / J**2)), 0
+    if name in ("ThreeFieldVariation(user:nonsymmetric-tangent)", "NearlyIncompressible(user:nonsymmetric-tangent)"):
+        # a base law without potential: P = mu F + beta tr(F) F, its (exact) tangent has no major symmetry - F:A and A:F differ
+        I3 = np.eye(3)
+
+        def stress(x, mu, beta):
+            F_ = x[0]
+            return [mu * F_ + beta * np.trace(F_) * F_, x[1]]
+
+        def elasticity(x, mu, beta):
+            F_ = x[0]
+            one = np.ones((1, 1, 1, 1) + F_.shape[2:])
+            A_ = (mu + beta * np.trace(F_)) * np.einsum("ik,jl->ijkl", I3, I3).reshape(3, 3, 3, 3, 1, 1) * one
+            return [A_ + beta * np.einsum("ij...,kl->ijkl...", F_, I3)]
+
+        base = fem.Material(stress, elasticity, mu=c["mu"], beta=0.2 + c["c2"])
+        return (fem.ThreeFieldVariation(base) if name.startswith("Three") else fem.NearlyIncompressible(base, bulk=c["bulk"])), 0
     if name == "ThreeFieldVariation(OgdenRoxburgh)":
         return fem.ThreeFieldVariation(fem.OgdenRoxburgh(fem.NeoHooke(mu=c["mu"], bulk=c["bulk"]), r=3.0, m=1.0, beta=c["c2"])), 1
     raise KeyError(name)
@@ -243,7 +260,12 @@ def mixed_check(name, case, rec):
     fJJ = fd(lambda J_: G(F, p, J_)[2], Jb)
     cmp("uu", Auu, fuu)
     cmp("up", Aup, fup.reshape((3, 3) + fup.shape[3:]) if Aup is not None and Aup.ndim == 4 else fup)
-    cmp("uJ", AuJ, fuJ.reshape((3, 3) + fuJ.shape[3:]) if AuJ is not None and AuJ.ndim == 4 else fuJ)
+    if name == "ThreeFieldVariation(user:nonsymmetric-tangent)":
+        # the three-field variation is derived from a potential; for a base law without one d(r_u)/dJ and d(r_J)/dF differ and the
+        # single stored (u, J) block can equal only one of them: not decided. The (u, u) block is well defined and must be exact.
+        rec.label("(u,J)-block-of-a-non-potential-base-law-not-decided")
+    else:
+        cmp("uJ", AuJ, fuJ.reshape((3, 3) + fuJ.shape[3:]) if AuJ is not None and AuJ.ndim == 4 else fuJ)
     cmp("pp", App, fpp)
     cmp("pJ", ApJ, fpJ)
     cmp("JJ", AJJ, fJJ)
